@@ -9,5 +9,11 @@ Models(kind) ==
     \cup {[present |-> {i \in All(kind) : i <= 3 \/ i % 2 = p}, n |-> 1, folded |-> TRUE] : p \in {0, 1}}
 Vec(kind, m) == [k |-> "doc", kind |-> kind, present |-> SetToSeq(m.present), n |-> m.n, folded |-> m.folded, bytes |-> RenderDoc(kind, m)]
 Keys == {[k |-> "keys", kind |-> kd] : kd \in DocKinds}
-ASSUME Emit(SetToSeq(Keys) \o SetToSeq(UNION {{Vec(kd, m) : m \in Models(kd)} : kd \in DocKinds}))
+\* multi-stanza documents (Packages, Sources, the binary stanzas of debian/control): the stanza under test comes SECOND,
+\* after a stanza that carries every field - what a stanza omits must be absent from its typed view, whatever came before
+Full(kind) == [present |-> All(kind), n |-> 3, folded |-> FALSE]
+Vec2(kind, m) == [k |-> "doc", kind |-> kind, present |-> SetToSeq(m.present), n |-> m.n, folded |-> m.folded, bytes |-> RenderDoc(kind, m),
+                  prefix |-> RenderDoc(kind, Full(kind))]
+ASSUME Emit(SetToSeq(Keys) \o SetToSeq(UNION {{Vec(kd, m) : m \in Models(kd)} : kd \in DocKinds})
+            \o SetToSeq(UNION {{Vec2(kd, m) : m \in Models(kd)} : kd \in {"packages", "sources", "binpara"}}))
 =============================================================================
